@@ -154,6 +154,11 @@ class AbstractWorker:
                     # We only set the is_apply_func flag when we are not running the init/exit functions
                     self.is_apply_func = is_apply_func
 
+                    # Kept-alive workers can serve ordered and unordered map calls in turn, so the helper function
+                    # (with or without idx support) has to be determined for each chunk
+                    if not is_apply_func:
+                        func = self._get_func(self.map_params.func)
+
                     results = []
                     for args in next_chunked_args:
 
